@@ -73,9 +73,14 @@ import (
 //@   ensures[rad] isDim && lu == "rad" ==> result0 == d.ValueF
 //@   ensures[not-angle] !result1 ==> result0 == 0
 
+// a var() reference is found wherever it sits: in the token itself or, recursively, in ANY argument of a function
 //@ func HasVar
 //@   props C08
+//@   pure refs
 //@   modifies nothing
+//@   ensures[not-a-function] name == "" ==> !result
+//@   ensures[descends-into-every-argument] name != "" && !(name == "var" && len(args) != 0) ==> result == exists(i, 0, len(args), HasVar(args[i]))
+//@   loop 1 invariant forall(k, 0, rangeindex + 1, !HasVar(args[k])) && rangeindex < len(args)
 
 //@ func findVar
 //@   props C08
@@ -394,13 +399,13 @@ func vShorthandsVsLonghands() (int, []string) {
 // bounded stand-in (C07, C01): the ~200 property validators and the shorthand expanders are not under
 // contract one by one. vDeclarationsNoPanic feeds PreprocessDeclarations every declaration
 // `<property>: <value>` for EVERY property and shorthand name the package knows and every value of one to
-// three tokens over 16 token shapes (keywords, numbers with and without units, a percentage, `/`, `,`, a
-// string, a url, a function, a hash, an ident): about 1.4 million declarations. A declaration may be
+// three tokens over 18 token shapes (keywords, numbers with and without units, a percentage, `/`, `,`, three
+// strings, a url, a function, a hash, an ident): about 1.4 million declarations. A declaration may be
 // dropped; none may panic.
 func vDeclarationsNoPanic() (int, []string) {
 	logger.WarningLogger.SetOutput(io.Discard) // a dropped declaration is reported there: not what is checked
 	defer logger.WarningLogger.SetOutput(os.Stdout)
-	vocab := []string{"auto", "none", "normal", "0", "1", "10px", "50%", "/", ",", "red", "\"s\"", "url(a)", "span", "2fr", "f(1)", "#a1"}
+	vocab := []string{"auto", "none", "normal", "0", "1", "10px", "50%", "/", ",", "red", "\"s\"", "\"a b\"", "\"a b c\"", "url(a)", "span", "2fr", "f(1)", "#a1"}
 	var names []string
 	for name := range pr.PropsFromNames {
 		names = append(names, name)
@@ -437,6 +442,38 @@ func vDeclarationsNoPanic() (int, []string) {
 			}
 		}
 	}
+	// descriptors of @font-face and @counter-style rules
+	descVocab := append([]string{"format(\"woff\")", "local(a)", "symbols(\"a\")", "cyclic", "additive", "extends", "infinite", "-1", "U+26", "bold", "italic"}, vocab...)
+	for _, name := range []string{"font-family", "src", "font-style", "font-weight", "font-stretch", "font-feature-settings", "font-variant", "font-display", "unicode-range",
+		"system", "negative", "prefix", "suffix", "range", "pad", "fallback", "symbols", "additive-symbols", "speak-as"} {
+		failed := len(fails)
+		tryDesc := func(value string) {
+			n++
+			defer func() {
+				if r := recover(); r != nil && len(fails) < 8 {
+					fails = append(fails, fmt.Sprintf("descriptor %s: %s panics: %v", name, value, r))
+				}
+			}()
+			ds := pa.ParseDeclarationListString(name+": "+value, false, false)
+			PreprocessFontFaceDescriptors("http://x/", ds)
+			PreprocessCounterStyleDescriptors("http://x/", ds)
+		}
+		for _, a := range descVocab {
+			tryDesc(a)
+			for _, b := range descVocab {
+				tryDesc(a + " " + b)
+				for _, c := range descVocab {
+					tryDesc(a + " " + b + " " + c)
+				}
+				if len(fails) > failed {
+					break
+				}
+			}
+			if len(fails) > failed {
+				break
+			}
+		}
+	}
 	// shorthands take longer values: four tokens over ten shapes
 	small := []string{"auto", "none", "normal", "0", "10px", "50%", "/", ",", "red", "span"}
 	for sh := pr.Shortand(1); int(sh) < len(expanders); sh++ {
@@ -460,5 +497,5 @@ func vDeclarationsNoPanic() (int, []string) {
 	return n, fails
 }
 
-//@ bounded vDeclarationsNoPanic every property and shorthand name x every value of 1 to 3 tokens over 16 token shapes, and every shorthand x every value of 4 tokens over 10 shapes, through PreprocessDeclarations: no panic
+//@ bounded vDeclarationsNoPanic every property and shorthand name x every value of 1 to 3 tokens over 18 token shapes, and every shorthand x every value of 4 tokens over 10 shapes, through PreprocessDeclarations; 19 @font-face / @counter-style descriptors x values of 1 to 3 tokens over 29 shapes: no panic
 //@   props C07 C01
